@@ -180,8 +180,8 @@ class IkeSaController:
                     conn.sendall(json.dumps(result).encode())
                     conn.close()
 
-                # check retransmissions
-                for ikesa in self.ike_sas:
+                # check retransmissions (on a copy of the list, as IKE_SAs may be removed while iterating)
+                for ikesa in list(self.ike_sas):
                     request_data = ikesa.check_retransmission_timer()
                     if request_data:
                         dst_addr = (str(ikesa.peer_addr), 500)
